@@ -239,15 +239,17 @@ func (t *tree) parsePrint(token item) ast.Node {
 // Aliases are applied at immediately (at parse time) to new nodes.
 // "alias" has just been read.
 func (t *tree) parseAlias(token item) {
-	var name = t.expect(itemIdent, "alias").val
-	var lastSegment = name
+	var first = t.expect(itemIdent, "alias").val
+	var lastSegment = first
+	var name strings.Builder // (appending to a string would copy it once per segment)
+	name.WriteString(first)
 	for {
 		switch next := t.next(); next.typ {
 		case itemDotIdent:
-			name += next.val
+			name.WriteString(next.val)
 			lastSegment = next.val[1:]
 		case itemRightDelim:
-			t.aliases[lastSegment] = name
+			t.aliases[lastSegment] = name.String()
 			return
 		default:
 			t.unexpected(next, "alias. (expected '}')")
@@ -302,10 +304,12 @@ func (t *tree) parseCall(token item) ast.Node {
 		// this ident could either be {call fully.qualified.name} or attributes.
 		switch tok2 := t.next(); tok2.typ {
 		case itemDotIdent:
-			templateName = tok.val + tok2.val
+			var name strings.Builder
+			name.WriteString(tok.val + tok2.val)
 			for tokn := t.next(); tokn.typ == itemDotIdent; tokn = t.next() {
-				templateName += tokn.val
+				name.WriteString(tokn.val)
 			}
+			templateName = name.String()
 			t.backup()
 		default:
 			t.backup2(tok)
@@ -724,17 +728,18 @@ func (t *tree) parseNamespace(token item) ast.Node {
 		t.errorf("file may have only one namespace declaration")
 	}
 	const ctx = "namespace"
-	var name = t.expect(itemIdent, ctx).val
+	var name strings.Builder
+	name.WriteString(t.expect(itemIdent, ctx).val)
 	for {
 		switch part := t.next(); part.typ {
 		case itemDotIdent:
-			name += part.val
+			name.WriteString(part.val)
 		default:
 			t.backup()
 			var autoescape = t.parseAutoescape(t.parseAttrs("autoescape"))
 			t.expect(itemRightDelim, ctx)
-			t.namespace = name
-			return &ast.NamespaceNode{token.pos, name, autoescape}
+			t.namespace = name.String()
+			return &ast.NamespaceNode{token.pos, t.namespace, autoescape}
 		}
 	}
 }
@@ -1179,13 +1184,14 @@ func (t *tree) newValueNode(tok item) ast.Node {
 }
 
 func (t *tree) newGlobalNode(tok, next item) ast.Node {
-	var name = tok.val
+	var name strings.Builder
+	name.WriteString(tok.val)
 	for next.typ == itemDotIdent {
-		name += next.val
+		name.WriteString(next.val)
 		next = t.next()
 	}
 	t.backup()
-	return &ast.GlobalNode{tok.pos, name, data.Undefined{}}
+	return &ast.GlobalNode{tok.pos, name.String(), data.Undefined{}}
 }
 
 func (t *tree) newFunctionNode(tok item) ast.Node {
